@@ -54,6 +54,11 @@ def draw_cfg(st):
         "w_reenter": st.choose(3, "reenter"),
         "join_after_scope": True,
         "orphans": True,
+        "foreign_finish": bool(st.choose(2, "foreign_finish")),
+        # schedule independence with a destination that fails for some messages (chosen by content, so the
+        # same ones in every interleaving): the failure reports are messages too and belong to the action
+        # current in the thread whose message failed
+        "fault_resched": st.choose(12, "fault_resched") == 11,
     }
     if world == "threads":
         cfg["n_actors"] = 2 + st.choose(4, "actors")
@@ -73,16 +78,40 @@ def draw_cfg(st):
     return cfg
 
 
+REPORT = "eliot:destination_failure"
+
+
 def setup(rc, interp):
     rc.tap = Tap(rc)
-    rc.eliot.add_destinations(rc.tap)
+    if rc.cfg.get("fault_resched"):
+        k = 2 + rc.seed % 3
+
+        def flaky(message):
+            n = message.get("nid")
+            if isinstance(n, int) and n % k == 0 and message.get("message_type") != REPORT:
+                rc.count_fault("dest_raise")
+                raise RuntimeError("flaky destination, nid=%d" % n)
+        rc.eliot.add_destinations(flaky, rc.tap)
+    else:
+        rc.eliot.add_destinations(rc.tap)
+
+
+def _mask_reports(msgs):
+    out = []
+    for m in msgs:
+        if m.get("message_type") == REPORT:
+            m = dict(m, message="<rendering>")
+        out.append(m)
+    return out
 
 
 def one(seed, dec, cfg, prog):
     rc = RunCtx(ID, seed, dec, cfg)
     run_program(rc, prog, setup)
     msgs = [r.msg for r in rc.tap.records]
-    if rc.violation is None:
+    if rc.violation is None and cfg.get("fault_resched"):
+        msgs = _mask_reports(msgs)
+    elif rc.violation is None:
         try:
             O.account(msgs, rc.model)
             O.check_forest(msgs, rc.model, order_free=False)
@@ -96,7 +125,7 @@ def run_one(seed, dec):
     prog = P.generate(dec.stream("prog"), cfg)
     rc, msgs = one(seed, dec, cfg, prog)
     extra = {"reschedules": 0}
-    if rc.violation is None and cfg["resched"]:
+    if rc.violation is None and (cfg["resched"] or cfg["fault_resched"]):
         base_forest = O.canonical_forest(msgs)
         for k in range(1, 4):
             cfg2 = dict(cfg, sched_stream="sched%d" % k)
